@@ -417,23 +417,83 @@ theorem opinv_flush (st : Oplog.State) (f : File) (hf : Header) (es : List Entry
     · simp [Oplog.flush, framesBytes]
     · intro e he; cases he
 
+theorem next_cur_ne (b : Bits) : b.next.cur ≠ b.cur := by
+  obtain ⟨b0, b1⟩ := b
+  cases b0 <;> cases b1 <;> decide
+
+theorem open_drop_entries {l : Rotation.Log Header Entry} {b : Bits} {h : Header} {es : List Entry}
+    (ho : l.open = some (b, h, es)) : ({ l with entries := [] } : Rotation.Log Header Entry).open = some (b, h, []) := by
+  obtain ⟨c0, c1, fs⟩ := l
+  cases c0 with
+  | none =>
+    cases c1 with
+    | none => simp [Rotation.Log.open] at ho
+    | some p => obtain ⟨b1, h1⟩ := p; simp [Rotation.Log.open, seen, takeBit, Rotation.dropTrailingPartial] at ho ⊢; exact ⟨ho.1, ho.2.1⟩
+  | some p0 =>
+    obtain ⟨b0, h0⟩ := p0
+    cases c1 with
+    | none => simp [Rotation.Log.open, seen, takeBit, Rotation.dropTrailingPartial] at ho ⊢; exact ⟨ho.1, ho.2.1⟩
+    | some p => obtain ⟨b1, h1⟩ := p; simp [Rotation.Log.open, seen, takeBit, Rotation.dropTrailingPartial] at ho ⊢; exact ⟨ho.1, ho.2.1⟩
+
+/-- opening the image "header written, entry region not yet truncated": the new header, no entries, the
+    stale region cut off — and the protocol invariant holds for what is left -/
+theorem mid_open (S0 S1 : Bytes) (l' : Rotation.Log Header Entry) (g : File) (bits : Bits) (h' : Header) (es : List Entry)
+    (hg : g.toList = S0 ++ S1 ++ framesBytes l'.entries) (l0 : S0.length = Spec.headerSize) (l1 : S1.length = Spec.headerSize)
+    (hs0 : SlotIs S0 l'.s0) (hs1 : SlotIs S1 l'.s1) (hents : l'.entries = es.map (mk bits.cur)) (hoks : ∀ e ∈ es, EntryOK e)
+    (b' : Bits) (hopen : l'.open = some (b', h', [])) (hcur : b'.cur = bits.next.cur)
+    (hinv2 : Rotation.Inv bits.next h' ([] : List Entry) { l' with entries := [] }) :
+    ∃ ost ops, openLog none g.toList = .ok ⟨ost, h', ops, []⟩ ∧ (∀ op ∈ ops, op.store = .oplog)
+      ∧ OpInv ost (ops.foldl (fun g op => op.onFile g) g).toList h' [] := by
+  have hS : Spec.headerSize = 4096 := rfl
+  have hE : Spec.entriesOffset = 8192 := rfl
+  have hfr' : ∀ fr ∈ l'.entries, EntryOK fr.entry := by
+    intro fr hfr
+    rw [hents] at hfr
+    obtain ⟨e, he, rfl⟩ := List.mem_map.mp hfr
+    exact hoks e he
+  obtain ⟨c0, c1, fs⟩ := l'
+  simp only at hg hs0 hs1 hents hfr' hinv2
+  obtain ⟨ost, e1, e2, e3⟩ := openLog_abs S0 S1 c0 c1 fs l0 l1 hs0 hs1 hfr' b' h' [] hopen
+  have htb : takeBit b'.cur fs = [] := by
+    rw [hents, hcur]; exact Rotation.takeBit_none _ _ (next_cur_ne bits) es
+  have hbexact : b' = bits.next := open_bits_exact hinv2 b' h' [] (open_drop_entries hopen)
+  have hglen : g.size = 8192 + (framesBytes fs).length := by
+    rw [← File.toList_length, hg]; simp only [List.length_append, l0, l1, hS]
+  refine ⟨ost, truncOps b'.cur fs, by rw [hg]; exact e1, truncOps_store _ _, ?_⟩
+  have hfinal : ((truncOps b'.cur fs).foldl (fun g op => op.onFile g) g).toList = S0 ++ S1 ++ framesBytes ([] : List (Rotation.Frame Entry)) := by
+    unfold truncOps
+    rw [htb]
+    by_cases hpos : (framesBytes fs).length > (framesBytes ([] : List (Rotation.Frame Entry))).length
+    · simp only [hpos, ite_true, List.foldl_cons, List.foldl_nil, SOp.onFile]
+      have : Spec.entriesOffset + (framesBytes ([] : List (Rotation.Frame Entry))).length = 8192 := by simp [framesBytes, hE]
+      rw [this, File.toList_truncate_le _ _ (by omega), hg]
+      have : (S0 ++ S1 ++ framesBytes fs).take 8192 = S0 ++ S1 := by
+        rw [List.take_append_of_le_length (by simp [l0, l1, hS])]
+        exact List.take_of_length_le (by simp [l0, l1, hS])
+      rw [this]; simp [framesBytes]
+    · simp only [hpos, ite_false, List.foldl_nil]
+      have hz : (framesBytes fs).length = 0 := by simp [framesBytes] at hpos ⊢; omega
+      have : framesBytes fs = [] := List.eq_nil_of_length_eq_zero hz
+      rw [hg, this]; simp [framesBytes]
+  rw [hfinal]
+  refine ⟨S0, S1, { s0 := c0, s1 := c1, entries := [] }, rfl, l0, l1, hs0, hs1, ?_, ?_, fun e he => by cases he⟩
+  · have : (⟨ost.bits.1, ost.bits.2⟩ : Bits) = bits.next := by rw [e2, ← hbexact]
+    rw [this]; exact hinv2
+  · rw [e3, htb]
+
 /-- the crash point inside a flush: the header is written to the next slot, the entry region is not yet
     truncated.  `Oplog::open` returns the **new** header and no entries (the stale frames carry the
-    other header bit). -/
+    other header bit) and cuts the stale region off; the protocol invariant holds for what is left. -/
 theorem opinv_flush_mid (st : Oplog.State) (f : File) (hf : Header) (es : List Entry) (h' : Header)
     (h : OpInv st f.toList hf es) (hok : HeaderOK h') :
     ∃ ost ops, openLog none (((Oplog.flush st h' false).2.take 1).foldl (fun g op => op.onFile g) f).toList = .ok ⟨ost, h', ops, []⟩
-      ∧ ∀ op ∈ ops, op.store = .oplog := by
+      ∧ (∀ op ∈ ops, op.store = .oplog)
+      ∧ OpInv ost (ops.foldl (fun g op => op.onFile g) (((Oplog.flush st h' false).2.take 1).foldl (fun g op => op.onFile g) f)).toList h' [] := by
   have hsz := opinv_size st f hf es h
   obtain ⟨s0, s1, l, hb, l0, l1, h0, h1, inv, hebl, hoks⟩ := h
   have hS : Spec.headerSize = 4096 := rfl
   have hE : Spec.entriesOffset = 8192 := rfl
-  obtain ⟨⟨b', hopen, _, _⟩, _⟩ := Rotation.switch_atomic (h' := h') inv
-  have hfr' : ∀ fr ∈ l.entries, EntryOK fr.entry := by
-    intro fr hfr
-    rw [inv.ents] at hfr
-    obtain ⟨e, he, rfl⟩ := List.mem_map.mp hfr
-    exact hoks e he
+  obtain ⟨⟨b', hopen, hcur, _⟩, hinv2⟩ := Rotation.switch_atomic (h' := h') inv
   generalize hfr : frame (encHeader h') (Spec.nextSlot st.bits.1 st.bits.2).2 false = fr
   generalize hbuf : fr ++ List.replicate (Spec.leaderSize + 2 * (encHeader h').length - fr.length) 0 = buf
   have hbl : buf.length = Spec.leaderSize + 2 * (encHeader h').length := by
@@ -458,13 +518,11 @@ theorem opinv_flush_mid (st : Oplog.State) (f : File) (hf : Header) (es : List E
         rw [List.drop_append_of_le_length (by omega)]
       rw [t0, d0]
       simp only [List.append_assoc]
-    rw [hfile]
     have hw : l.writeNext ⟨st.bits.1, st.bits.2⟩ h' = ⟨l.s0, some ((Spec.nextSlot st.bits.1 st.bits.2).2, h'), l.entries⟩ := by
       simp [Rotation.Log.writeNext, hsec]
-    rw [hw] at hopen
-    obtain ⟨ost, e1, _, _⟩ := openLog_abs s0 (buf ++ s1.drop buf.length) l.s0 (some ((Spec.nextSlot st.bits.1 st.bits.2).2, h'))
-      l.entries l0 hso.1 h0 hso.2 hfr' b' h' [] hopen
-    exact ⟨ost, _, e1, truncOps_store _ _⟩
+    rw [hw] at hopen hinv2
+    exact mid_open s0 (buf ++ s1.drop buf.length) ⟨l.s0, some ((Spec.nextSlot st.bits.1 st.bits.2).2, h'), l.entries⟩ _
+      ⟨st.bits.1, st.bits.2⟩ h' es hfile l0 hso.1 h0 hso.2 inv.ents hoks b' hopen hcur hinv2
   | false =>
     have hso := slot_overwrite s0 h' (Spec.nextSlot st.bits.1 st.bits.2).2 l0 hok fr buf hfr hbuf
     have hfile : (((Oplog.flush st h' false).2.take 1).foldl (fun g op => op.onFile g) f).toList
@@ -478,13 +536,28 @@ theorem opinv_flush_mid (st : Oplog.State) (f : File) (hf : Header) (es : List E
         rw [List.append_assoc, List.drop_append_of_le_length (by omega), List.append_assoc]
       rw [d0]
       simp only [List.append_assoc]
-    rw [hfile]
     have hw : l.writeNext ⟨st.bits.1, st.bits.2⟩ h' = ⟨some ((Spec.nextSlot st.bits.1 st.bits.2).2, h'), l.s1, l.entries⟩ := by
       simp [Rotation.Log.writeNext, hsec]
-    rw [hw] at hopen
-    obtain ⟨ost, e1, _, _⟩ := openLog_abs (buf ++ s0.drop buf.length) s1 (some ((Spec.nextSlot st.bits.1 st.bits.2).2, h')) l.s1
-      l.entries hso.1 l1 hso.2 h1 hfr' b' h' [] hopen
-    exact ⟨ost, _, e1, truncOps_store _ _⟩
+    rw [hw] at hopen hinv2
+    exact mid_open (buf ++ s0.drop buf.length) s1 ⟨some ((Spec.nextSlot st.bits.1 st.bits.2).2, h'), l.s1, l.entries⟩ _
+      ⟨st.bits.1, st.bits.2⟩ h' es hfile hso.1 l1 hso.2 h1 inv.ents hoks b' hopen hcur hinv2
+
+/-- the oplog store of a crash image: the protocol invariant holds for some in-memory state, or a flush was
+    cut between its header write and its truncate -/
+def OpImage (f : File) (hf : Header) (es : List Entry) : Prop :=
+  (∃ st, OpInv st f.toList hf es)
+    ∨ (∃ st f0 hf0 es0, OpInv st f0.toList hf0 es0 ∧ HeaderOK hf ∧ es = []
+        ∧ f = ((Oplog.flush st hf false).2.take 1).foldl (fun g op => op.onFile g) f0)
+
+/-- opening a crash image: the header and entries it stands for, and the invariant for the store as
+    `Oplog::open` leaves it -/
+theorem opimage_open (f : File) (hf : Header) (es : List Entry) (h : OpImage f hf es) :
+    ∃ ost ops, openLog none f.toList = .ok ⟨ost, hf, ops, es⟩ ∧ (∀ op ∈ ops, op.store = .oplog)
+      ∧ OpInv ost (ops.foldl (fun g op => op.onFile g) f).toList hf es := by
+  rcases h with ⟨st, hi⟩ | ⟨st, f0, hf0, es0, hi, hok, rfl, rfl⟩
+  · obtain ⟨ost, hlog, hb, he⟩ := opinv_open st _ hf es hi
+    exact ⟨ost, [], hlog, (fun op hop => by cases hop), opinv_congr st ost _ hf es hi hb he⟩
+  · exact opinv_flush_mid st f0 hf0 es0 hf hi hok
 
 theorem leVal_zeros (k : Nat) : leVal (List.replicate k (0 : UInt8)) = 0 := by
   induction k with
